@@ -1,0 +1,88 @@
+//go:build verif
+
+package graph
+
+import (
+	"cmp"
+	"fmt"
+	"slices"
+
+	openfgav1 "github.com/openfga/api/proto/openfga/v1"
+)
+
+// Hooks for the verification harness in /verif (build tag "verif"). They add no behaviour to the
+// package: without the tag this file is not compiled.
+
+// VerifBuildUnweighted runs the construction loop of Build without AssignWeights, so that the
+// depth-first start order of the weight assignment can be chosen by the caller.
+func VerifBuildUnweighted(model *openfgav1.AuthorizationModel) (*WeightedAuthorizationModelGraph, error) {
+	wgb := NewWeightedAuthorizationModelGraphBuilder()
+	wb := NewWeightedAuthorizationModelGraph()
+	sortedTypeDefs := make([]*openfgav1.TypeDefinition, len(model.GetTypeDefinitions()))
+	copy(sortedTypeDefs, model.GetTypeDefinitions())
+
+	slices.SortFunc(sortedTypeDefs, func(a, b *openfgav1.TypeDefinition) int {
+		return cmp.Compare(a.GetType(), b.GetType())
+	})
+
+	for _, typeDef := range sortedTypeDefs {
+		wb.GetOrAddNode(typeDef.GetType(), typeDef.GetType(), SpecificType)
+
+		sortedRelations := make([]string, 0, len(typeDef.GetRelations()))
+		for relationName := range typeDef.GetRelations() {
+			sortedRelations = append(sortedRelations, relationName)
+		}
+
+		slices.Sort(sortedRelations)
+
+		for _, relation := range sortedRelations {
+			uniqueLabel := typeDef.GetType() + "#" + relation
+			parentNode := wb.GetOrAddNode(uniqueLabel, uniqueLabel, SpecificTypeAndRelation)
+			rewrite := typeDef.GetRelations()[relation]
+
+			if err := wgb.parseRewrite(wb, parentNode, model, rewrite, typeDef, relation); err != nil {
+				return nil, err
+			}
+		}
+	}
+
+	return wb, nil
+}
+
+// VerifAssignWeightsInOrder is AssignWeights with the depth-first search started from the given
+// nodes in the given order (nodes that are not listed follow in label order).
+func (wg *WeightedAuthorizationModelGraph) VerifAssignWeightsInOrder(order []string) error {
+	if wg.hasRewriteOnlyCycle() {
+		return ErrModelCycle
+	}
+
+	visited := make(map[string]bool)
+	ancestorPath := make([]*WeightedAuthorizationModelEdge, 0)
+	tupleCycleDependencies := make(map[string][]*WeightedAuthorizationModelEdge)
+
+	rest := make([]string, 0, len(wg.nodes))
+	for node := range wg.nodes {
+		if !slices.Contains(order, node) {
+			rest = append(rest, node)
+		}
+	}
+
+	slices.Sort(rest)
+
+	for _, node := range append(append([]string{}, order...), rest...) {
+		if _, ok := wg.nodes[node]; !ok || visited[node] {
+			continue
+		}
+
+		tupleCyles, err := wg.calculateNodeWeight(node, visited, ancestorPath, tupleCycleDependencies)
+		if err != nil {
+			return err
+		}
+
+		if len(tupleCyles) > 0 {
+			return fmt.Errorf("%w: %d tuple cycles found without resolution", ErrTupleCycle, len(tupleCyles))
+		}
+	}
+
+	return nil
+}
